@@ -30,7 +30,7 @@ def worlds(tier, rng, real, classes, attrs=False, nmax=6):
             k = rng.choice(classes)
             a = rng.randrange(nv)
             b = a if rng.random() < 0.2 else rng.randrange(nv)
-            lines.append("edge %s V%d V%d" % (k, a, b))
+            lines.append("edge %s V%d V%d%s" % (k, a, b, " x=7" if rng.random() < 0.2 else ""))
         if rng.random() < 0.08:
             lines.append("edge D V0 -")
         if rng.random() < 0.05:
